@@ -17,6 +17,12 @@ for n in "${names[@]}"; do
   prop=$(python3 -c "import json;print(json.load(open('$d/meta.json'))['property'])")
   # check_with: other properties whose check is also tried when the property's own check does not report the change
   also=$(python3 -c "import json;print(' '.join(json.load(open('$d/meta.json')).get('check_with',[])))")
+  oos=$(python3 -c "import json;print(json.load(open('$d/meta.json')).get('out_of_scope',''))")
+  if [ -n "$oos" ]; then
+    echo "| $n | $prop | OUT OF SCOPE of the statement (see meta.json) | \`\` | - |" >> $tmpres
+    echo "$n $prop OUT-OF-SCOPE"
+    continue
+  fi
   wt=$base/$n
   git -C /repo worktree remove --force $wt 2>/dev/null
   git -C /repo worktree add -q --detach $wt HEAD || { echo "| $n | $prop | worktree failed |" >> $tmpres; continue; }
